@@ -24,7 +24,7 @@ for p in $demo_pkgs; do
   (cd "$T/clean" && go test -vet=off -count=1 "./$p" >"$T/demo_clean.log" 2>&1) || res_clean=FAIL
 done
 (cd "$D/demo$K" && find . -type f | while read f; do rm -f "$T/mut/$f"; done)
-"$HERE/bin/ucanlint" -property all -tier quick -repo "$T/mut" -verif "$HERE" -out "$T/out" > "$T/lint.log" 2>&1
+"${UCANLINT:-$HERE/bin/ucanlint}" -property all -tier quick -repo "$T/mut" -verif "$HERE" -out "$T/out" > "$T/lint.log" 2>&1
 hits=$(grep '^  rule' "$T/lint.log" | awk '{print $2}' | sort -u | tr '\n' ' ')
 echo "suite-failures-with-change=$suite demo-with-change=$res_mut demo-without-change=$res_clean checks-reporting: ${hits:-NONE}"
 [ "${VERBOSE:-0}" = 1 ] && grep -A6 '^VIOLATION' "$T/lint.log" | cut -c1-260
